@@ -18,8 +18,17 @@ Lemmas for C10 (panic handling in the serve model).  Everything lives in `Restfu
   least one container filter; the same Boolean as `covered` inside `Spec.c10Holds` (`c10Holds_eq`).
 * `raised`, `serveCore`, `serve_eq`, `serve_escaped`, `serve_recoverCalls`, `raw_escaped`,
   `serve_closed`, `serveCore_status`: the facts about `serve` the C10 theorems are assembled from.
+* `ActStableEq`, `runChain_relEq`: the same principle for two runs of one chain in the SAME context
+  (they see the same bytes; the contexts handed back are equal).  Instance: `Vis` (what the client of
+  the real run sees after decoding, `visBody`, is what the recorder of the run without coding holds).
+* `runRecover_visBody`, `runPlan_body`, `plainFilteredBody_body`, `handleFiltered_body`,
+  `serveCore_body`: after a recovered panic the visible body is the body of the run without coding and
+  recovery followed by `recoverWrites cfg`; `c10Body_of_eq`: such a body meets `Spec.c10Body`.
 * `chainLog_panic`, `chainOf_routed`, `raised_of_panicFromFilter`, `panicFromFilter_plain`: bridge to
   the specification's `chainLog`/`panicFromFilter`.
+* (for C13) `Clean`, `After`, `clean_stable`, `closeComp_clean`, `closeComp_again`, `secondClose`,
+  `serveCore_after`/`serve_after`, `secondClose_coded`: no `Write` reaches a compressing writer after
+  its `Close`, and a `Close` is refused exactly when `ServeHTTP`'s deferred `Close` follows `dispatch`'s.
 -/
 import Restful.Spec.Serve
 namespace Restful
@@ -186,6 +195,78 @@ theorem runChain_rel {R : Rec → Rec → Prop} (hR : ActStable R) (fs : List (S
         | some v => exact h2
         | none => exact runStage_rel hR _ _ _ _ _ _ _ _ _ h2
 
+/-- the same for two runs that see the same bytes: a relation preserved by each writer operation
+    applied to BOTH recorders with the same arguments -/
+structure ActStableEq (R : Rec → Rec → Prop) : Prop where
+  write : ∀ r r' b, R r r' → R (baseWrite r b) (baseWrite r' b)
+  writeHeader : ∀ r r' c, R r r' → R (baseWriteHeader r c) (baseWriteHeader r' c)
+  addHeader : ∀ r r' k v, R r r' → R (addHeader r k v) (addHeader r' k v)
+
+/-- the same script in the same context on related recorders: the contexts handed back are equal
+    (a context never depends on the writer) and the recorders stay related -/
+theorem runActs_relEq {R : Rec → Rec → Prop} (hR : ActStableEq R) (as : List Act) (cx : Ctx) (s s' : St)
+    (h : R s.rc s'.rc) :
+    (runActs as cx s).1 = (runActs as cx s').1 ∧ R (runActs as cx s).2.1.rc (runActs as cx s').2.1.rc := by
+  induction as generalizing cx s s' with
+  | nil => exact ⟨rfl, h⟩
+  | cons a as ih =>
+    cases a with
+    | write b => exact ih _ _ _ (hR.write _ _ _ h)
+    | writeHeader c => exact ih _ _ _ (hR.writeHeader _ _ _ h)
+    | addHeader k v => exact ih _ _ _ (hR.addHeader _ _ _ _ h)
+    | setAttr k v => exact ih _ _ _ h
+    | panic v => exact ⟨rfl, h⟩
+
+theorem runStage_relEq {R : Rec → Rec → Prop} (hR : ActStableEq R) (st : Stage) (post : Bool) (as : List Act)
+    (cx : Ctx) (s s' : St) (h : R s.rc s'.rc) :
+    (runStage st post as cx s).1 = (runStage st post as cx s').1 ∧
+      R (runStage st post as cx s).2.1.rc (runStage st post as cx s').2.1.rc :=
+  runActs_relEq hR as cx _ _ h
+
+/-- two runs of the same chain in the same context, from related recorders: equal contexts, related
+    recorders -/
+theorem runChain_relEq {R : Rec → Rec → Prop} (hR : ActStableEq R) (fs : List (Stage × Filter)) (t : Target)
+    (cx : Ctx) (s s' : St) (h : R s.rc s'.rc) :
+    (runChain fs t cx s).1 = (runChain fs t cx s').1 ∧ R (runChain fs t cx s).2.1.rc (runChain fs t cx s').2.1.rc := by
+  induction fs generalizing cx s s' with
+  | nil => exact runStage_relEq hR _ _ _ _ _ _ h
+  | cons sf fs ih =>
+    obtain ⟨st, f⟩ := sf
+    rw [runChain_cons, runChain_cons]
+    simp only [runStage_panic, runChain_panic]
+    obtain ⟨hc1, h1⟩ := runStage_relEq hR st false f.pre cx s s' h
+    cases firstPanic f.pre with
+    | some v => exact ⟨hc1, h1⟩
+    | none =>
+      cases f.kind with
+      | stop =>
+        simp only [hc1]
+        exact runStage_relEq hR _ _ _ _ _ _ h1
+      | pass =>
+        simp only [hc1]
+        obtain ⟨hc2, h2⟩ := ih (runStage st false f.pre cx s').1 _ _ h1
+        cases chainPanic fs t.script with
+        | some v => exact ⟨hc2, h2⟩
+        | none =>
+          simp only [hc2]
+          exact runStage_relEq hR _ _ _ _ _ _ h2
+      | replace =>
+        simp only [hc1]
+        obtain ⟨_, h2⟩ := ih { attrs := [("who".toList, (toString f.id).toList)], params := [], selPath := [], wrappers := f.id :: (runStage st false f.pre cx s').1.wrappers } _ _ h1
+        cases chainPanic fs t.script with
+        | some v => exact ⟨rfl, h2⟩
+        | none => exact runStage_relEq hR _ _ _ _ _ _ h2
+      | middle =>
+        simp only [hc1]
+        obtain ⟨hc2, h2⟩ := ih { (runStage st false f.pre cx s').1 with wrappers := f.id :: (runStage st false f.pre cx s').1.wrappers } _ _ h1
+        cases chainPanic fs t.script with
+        | some v => exact ⟨hc2, h2⟩
+        | none =>
+          simp only [hc2]
+          obtain ⟨hc3, h3⟩ := runStage_relEq hR st true f.post
+            { (runChain fs t { (runStage st false f.pre cx s').1 with wrappers := f.id :: (runStage st false f.pre cx s').1.wrappers } (runStage st false f.pre cx s').2.1).1 with wrappers := (runStage st false f.pre cx s').1.wrappers } _ _ h2
+          exact ⟨by rw [hc3], h3⟩
+
 /-! ### recorder facts -/
 
 theorem lockStatus_comp (r : Rec) (c : Nat) : (lockStatus r c).comp = r.comp := by
@@ -325,6 +406,112 @@ theorem runActs_status_some {d : Nat} (as : List Act) (cx : Ctx) (s : St) (h : s
     (runActs as cx s).2.1.rc.status = some d :=
   runActs_rel (status_stable d) as cx cx s s h
 
+/-! ### the body the client sees -/
+
+/-- the body as the client sees it after decoding: the bytes handed to the compressing writer when
+    there is one, the recorder's bytes otherwise (what `Spec.obsOf` calls `body`) -/
+def visBody (r : Rec) : Str :=
+  match r.comp with
+  | none => r.body
+  | some c => c.payload
+
+theorem obsOf_body (r : Result) : (Spec.obsOf r).body = visBody r.rc := rfl
+
+theorem lockStatus_body (r : Rec) (c : Nat) : (lockStatus r c).body = r.body := by
+  unfold lockStatus; split <;> rfl
+
+theorem visBody_lockStatus (r : Rec) (c : Nat) : visBody (lockStatus r c) = visBody r := by
+  unfold lockStatus; split <;> rfl
+
+theorem open_lockStatus {r : Rec} (c : Nat) (h : Open r) : Open (lockStatus r c) := by
+  intro c0
+  rw [lockStatus_comp]
+  exact h c0
+
+/-- a write on a writer that is not closed appends to what the client will see -/
+theorem visBody_baseWrite {r : Rec} (b : Str) (h : Open r) : visBody (baseWrite r b) = visBody r ++ b := by
+  unfold baseWrite visBody
+  cases hc : r.comp with
+  | none => simp [lockStatus_comp, hc]
+  | some c0 =>
+    have := h c0 hc
+    simp [this]
+
+theorem closeComp_visBody (s : St) : visBody (closeComp s).rc = visBody s.rc := by
+  unfold closeComp
+  cases h : s.rc.comp with
+  | none => rfl
+  | some c0 =>
+    by_cases hc : c0.closed = true
+    · simp [hc, visBody, h]
+    · simp [hc, visBody, h]
+
+theorem closeComp_body (s : St) : (closeComp s).rc.body = s.rc.body := by
+  unfold closeComp
+  cases h : s.rc.comp with
+  | none => rfl
+  | some c0 =>
+    by_cases hc : c0.closed = true
+    · simp [hc]
+    · simp [hc, lockStatus_body]
+
+/-- the relation between the real run `r` and the run without coding `r'` as to the body: the real
+    compressor is not closed, the other run has none, and the client of the real run will see
+    (after decoding) exactly the bytes the other run's recorder holds -/
+def Vis (r r' : Rec) : Prop := Open r ∧ r'.comp = none ∧ visBody r = r'.body
+
+theorem vis_stable : ActStableEq Vis := by
+  refine ⟨?_, ?_, ?_⟩
+  · rintro r r' b ⟨ho, hn, hb⟩
+    refine ⟨open_baseWrite b ho, ?_, ?_⟩
+    · simp [baseWrite, hn, lockStatus_comp]
+    · rw [visBody_baseWrite b ho, hb]
+      simp [baseWrite, hn]
+  · rintro r r' c ⟨ho, hn, hb⟩
+    refine ⟨open_lockStatus c ho, ?_, ?_⟩
+    · rw [baseWriteHeader, lockStatus_comp]
+      exact hn
+    · rw [baseWriteHeader, baseWriteHeader, visBody_lockStatus, lockStatus_body]
+      exact hb
+  · rintro r r' k v ⟨ho, hn, hb⟩
+    exact ⟨ho, hn, hb⟩
+
+/-- `Open` is kept by every writer operation -/
+theorem open_stable : ActStableEq (fun r _ => Open r) := by
+  refine ⟨?_, ?_, ?_⟩
+  · intro r _ b h
+    exact open_baseWrite b h
+  · intro r _ c h
+    exact open_lockStatus c h
+  · intro r _ k v h
+    exact h
+
+/-- a script run directly on the base writer (no wrappers, as the recover handler is) appends its
+    writes to what the client sees -/
+theorem runActs_visBody (sc : List Act) (cx : Ctx) (s : St) (hw : cx.wrappers = []) (ho : Open s.rc) :
+    visBody (runActs sc cx s).2.1.rc = visBody s.rc ++ Spec.scriptWrites sc := by
+  induction sc generalizing cx s with
+  | nil => simp [runActs, Spec.scriptWrites]
+  | cons a as ih =>
+    cases a with
+    | write b =>
+      simp only [runActs, Spec.scriptWrites]
+      rw [ih cx _ hw (open_baseWrite _ ho)]
+      simp only [hw, throughWrappers, List.foldl_nil]
+      rw [visBody_baseWrite b ho, List.append_assoc]
+    | writeHeader c =>
+      simp only [runActs, Spec.scriptWrites]
+      rw [ih cx _ hw (open_lockStatus c ho)]
+      simp only [baseWriteHeader, visBody_lockStatus]
+    | addHeader k v =>
+      simp only [runActs, Spec.scriptWrites]
+      rw [ih cx { s with rc := addHeader s.rc k v } hw ho]
+      rfl
+    | setAttr k v =>
+      simp only [runActs, Spec.scriptWrites]
+      exact ih _ s hw ho
+    | panic v => simp [runActs, Spec.scriptWrites]
+
 /-! ### the recover handler -/
 
 /-- the status a script produces on an unlocked, unclosed writer: its first `writeHeader`, or 200 -/
@@ -407,6 +594,26 @@ theorem runRecover_status (cfg : Cfg) (s : St) (hs : s.rc.status = none) (ho : O
   | some sc =>
     rw [hsc] at he
     exact runActs_scriptStatus sc {} _ hs ho he
+
+/-- what the recover handler writes: the script's writes, or the library's stack text -/
+def recoverWrites (cfg : Cfg) : Str :=
+  match cfg.recoverScript with
+  | some sc => Spec.scriptWrites sc
+  | none => "<stack>".toList
+
+theorem stack_ne_nil : "<stack>".toList ≠ [] := by decide
+
+/-- on a writer that is not closed (compressing or not) the recover handler's writes are appended to
+    what the client sees -/
+theorem runRecover_visBody (cfg : Cfg) (s : St) (ho : Open s.rc) :
+    visBody (runRecover cfg s).rc = visBody s.rc ++ recoverWrites cfg := by
+  unfold runRecover recoverWrites
+  cases hsc : cfg.recoverScript with
+  | none =>
+    simp only []
+    have ho' : Open (baseWriteHeader s.rc 500) := open_lockStatus 500 ho
+    rw [visBody_baseWrite _ ho', baseWriteHeader, visBody_lockStatus]
+  | some sc => exact runActs_visBody sc {} _ rfl ho
 
 /-! ### `finishDispatch` -/
 
@@ -898,6 +1105,177 @@ theorem serveCore_status (E : ReEnv) (cfg : Cfg) (e : Entry) (sr : SReq)
       · exact fresh_initial sr
       · exact fresh_install c (fresh_initial sr)
 
+/-! ### the body after a recovered panic -/
+
+/-- a request state nothing has been written to, as to the body: the compressor (if any) is not
+    closed and there is nothing for the client to see yet -/
+def Blank (s : St) : Prop := Open s.rc ∧ visBody s.rc = []
+
+theorem blank_initial (sr : SReq) : Blank (initial sr) := ⟨fun _ h => (by cases h), rfl⟩
+
+theorem blank_install (s : St) (c : Coding) : Blank (install s c) := by
+  refine ⟨?_, rfl⟩
+  intro c0 h0
+  simp only [install, addHeader] at h0
+  cases h0
+  rfl
+
+theorem blank_maybeInstall {s : St} (b : Bool) (ae : Str) (h : Blank s) : Blank (maybeInstall b s ae) := by
+  unfold maybeInstall
+  split
+  · exact h
+  · split
+    · exact blank_install _ _
+    · exact h
+
+theorem finishDispatch_visBody (cfg : Cfg) (s : St) (v : Str) (hr : cfg.recover = true) (ho : Open s.rc) :
+    visBody (finishDispatch cfg s (some v)).1.rc = visBody s.rc ++ recoverWrites cfg := by
+  simp only [finishDispatch, hr, if_true]
+  rw [closeComp_visBody]
+  exact runRecover_visBody cfg s ho
+
+theorem finishDispatch_body_off (cfg : Cfg) (s : St) (p : Option Str) (hr : cfg.recover = false) :
+    (finishDispatch cfg s p).1.rc.body = s.rc.body := by
+  unfold finishDispatch
+  cases p with
+  | none => exact closeComp_body s
+  | some v =>
+    simp only [hr, Bool.false_eq_true, if_false]
+    exact closeComp_body s
+
+/-- the body after a recovered panic on a routed request: what the run without coding and recovery
+    had written when the panic was raised, followed by the recover handler's writes — through a
+    compressing writer as well -/
+theorem runPlan_body (cfg cfg' : Cfg) (sr sr' : SReq) (s0 s0' : St) (pl : Plan)
+    (hr : cfg.recover = true) (hr' : cfg'.recover = false)
+    (h0 : Blank s0) (h0' : s0'.rc.comp = none) (hb' : s0'.rc.body = [])
+    (hp : pl.raised.isSome = true) :
+    visBody (runPlan cfg sr s0 pl).1.rc = (runPlan cfg' sr' s0' pl.raw).1.rc.body ++ recoverWrites cfg := by
+  cases pl with
+  | early v =>
+    simp only [Plan.raw, runPlan]
+    rw [finishDispatch_visBody cfg s0 v hr h0.1, finishDispatch_body_off cfg' s0' _ hr', h0.2, hb']
+  | chain fs t cx enc =>
+    simp only [Plan.raised, Option.isSome_iff_exists] at hp
+    obtain ⟨v, hv⟩ := hp
+    simp only [Plan.raw, runPlan, maybeInstall_false, runChain_panic, hv]
+    have hf := blank_maybeInstall enc sr.acceptEncoding h0
+    have hsim : Vis (maybeInstall enc s0 sr.acceptEncoding).rc s0'.rc := ⟨hf.1, h0', by rw [hf.2, hb']⟩
+    have hsim' := (runChain_relEq vis_stable fs t cx _ _ hsim).2
+    rw [finishDispatch_visBody cfg _ v hr hsim'.1, finishDispatch_body_off cfg' _ _ hr', hsim'.2.2]
+
+theorem dispatch_body (E : ReEnv) (cfg : Cfg) (sr : SReq) (s0 : St)
+    (hr : cfg.recover = true) (h0 : Blank s0)
+    (hp : (planD E cfg sr).raised.isSome = true) :
+    visBody (dispatch E cfg sr s0).1.rc =
+      (dispatch E (rawCfg cfg) (rawReq sr) (initial (rawReq sr))).1.rc.body ++ recoverWrites cfg := by
+  rw [dispatch_eq, dispatch_eq E (rawCfg cfg), planD_raw]
+  exact runPlan_body cfg (rawCfg cfg) sr (rawReq sr) s0 _ _ hr rfl h0 rfl rfl hp
+
+/-- the same for the chain `HandleWithFilter` builds -/
+theorem plainFilteredBody_body (cfg : Cfg) (s s' : St)
+    (hr : cfg.recover = true) (hne : cfg.cfilters.isEmpty = false)
+    (h0 : Blank s) (h0' : s'.rc.comp = none) (hb' : s'.rc.body = [])
+    (hp : (chainPanic (label .cfilter cfg.cfilters) cfg.plainScript).isSome = true) :
+    visBody (plainFilteredBody cfg s).1.rc =
+      (plainFilteredBody (rawCfg cfg) s').1.rc.body ++ recoverWrites cfg := by
+  obtain ⟨v, hv⟩ := Option.isSome_iff_exists.mp hp
+  have hne' : (rawCfg cfg).cfilters.isEmpty = false := hne
+  have hcf : (rawCfg cfg).cfilters = cfg.cfilters := rfl
+  have hps : (rawCfg cfg).plainScript = cfg.plainScript := rfl
+  have hrr : (rawCfg cfg).recover = false := rfl
+  rw [plainFilteredBody_eq _ _ hne', hcf, hps, hv, hrr, plainFilteredBody_eq _ _ hne, hv]
+  simp only [hr, if_true, Bool.false_eq_true, if_false]
+  have hsim : Vis s.rc s'.rc := ⟨h0.1, h0', by rw [h0.2, hb']⟩
+  have hsim' := (runChain_relEq vis_stable (label .cfilter cfg.cfilters) ⟨.plain 0, cfg.plainScript⟩ {} _ _ hsim).2
+  rw [runRecover_visBody cfg _ hsim'.1, hsim'.2.2]
+
+theorem handleWrapper_raw_body (cfg : Cfg) (sr : SReq) (s0' : St) (body : St → St × Option Str × Nat)
+    (h0' : s0'.rc.comp = none) :
+    (handleWrapper (rawCfg cfg) (rawReq sr) s0' body).1.rc.body = (body s0').1.rc.body := by
+  unfold handleWrapper
+  simp only [h0', Option.isSome_none, Bool.false_eq_true, if_false]
+  show (closeComp (body (maybeInstall false s0' [])).1).rc.body = _
+  rw [closeComp_body, maybeInstall_false]
+
+theorem handleFiltered_body (cfg : Cfg) (sr : SReq) (s0 s0' : St)
+    (hr : cfg.recover = true) (hne : cfg.cfilters.isEmpty = false)
+    (h0 : Blank s0) (h0' : s0'.rc.comp = none) (hb' : s0'.rc.body = [])
+    (hp : (chainPanic (label .cfilter cfg.cfilters) cfg.plainScript).isSome = true) :
+    visBody (handleWrapper cfg sr s0 (plainFilteredBody cfg)).1.rc =
+      (handleWrapper (rawCfg cfg) (rawReq sr) s0' (plainFilteredBody (rawCfg cfg))).1.rc.body ++ recoverWrites cfg := by
+  rw [handleWrapper_raw_body cfg sr s0' _ h0']
+  unfold handleWrapper
+  split
+  · exact plainFilteredBody_body cfg s0 s0' hr hne h0 h0' hb' hp
+  · show visBody (closeComp (plainFilteredBody cfg (maybeInstall cfg.encoding s0 sr.acceptEncoding)).1).rc = _
+    rw [closeComp_visBody]
+    exact plainFilteredBody_body cfg _ s0' hr hne (blank_maybeInstall _ _ h0) h0' hb' hp
+
+/-- the body clause on `serve`, every covered entry point: after a recovered panic the client sees
+    (decoded) what the run without coding and recovery had written when the panic was raised,
+    followed by what the recover handler writes -/
+theorem serveCore_body (E : ReEnv) (cfg : Cfg) (e : Entry) (sr : SReq)
+    (hr : cfg.recover = true) (hco : covered cfg e = true)
+    (hp : (raised E cfg e sr).isSome = true) :
+    visBody (serveCore E cfg e sr).1.rc =
+      (serveCore E (rawCfg cfg) e (rawReq sr)).1.rc.body ++ recoverWrites cfg := by
+  cases e with
+  | dispatch => exact dispatch_body E cfg sr _ hr (blank_initial sr) hp
+  | serveDispatch =>
+    simp only [serveCore]
+    rw [serveWrapper_off (rawCfg cfg) _ _ _ rfl]
+    rcases serveWrapper_cases cfg sr (initial sr) (dispatch E cfg sr) with h | ⟨s1, hs1, h⟩
+    · rw [h]
+      exact dispatch_body E cfg sr _ hr (blank_initial sr) hp
+    · rw [h]
+      simp only [closeComp_visBody]
+      refine dispatch_body E cfg sr _ hr ?_ hp
+      rcases hs1 with rfl | ⟨c, rfl⟩
+      · exact blank_initial sr
+      · exact blank_install _ c
+  | muxHandle => simp at hco
+  | serveHandle => simp at hco
+  | muxHandleF =>
+    have hne : cfg.cfilters.isEmpty = false := by simpa using hco
+    exact handleFiltered_body cfg sr _ _ hr hne (blank_initial sr) rfl rfl hp
+  | serveHandleF =>
+    have hne : cfg.cfilters.isEmpty = false := by simpa using hco
+    simp only [serveCore]
+    rw [serveWrapper_off (rawCfg cfg) _ _ _ rfl]
+    rcases serveWrapper_cases cfg sr (initial sr) (fun s => handleWrapper cfg sr s (plainFilteredBody cfg)) with h | ⟨s1, hs1, h⟩
+    · rw [h]
+      exact handleFiltered_body cfg sr _ _ hr hne (blank_initial sr) rfl rfl hp
+    · rw [h]
+      simp only [closeComp_visBody]
+      refine handleFiltered_body cfg sr _ _ hr hne ?_ rfl rfl hp
+      rcases hs1 with rfl | ⟨c, rfl⟩
+      · exact blank_initial sr
+      · exact blank_install _ c
+
+/-- an observed body that is what had been written before followed by the recover handler's writes
+    meets the body clause of `c10Holds`, whichever handler is installed and whether or not part of
+    what had been written is a text of the library's own -/
+theorem c10Body_of_eq (cfg : Cfg) (lib : Bool) (before : Str) (o : Spec.Obs)
+    (h : o.body = before ++ recoverWrites cfg) : Spec.c10Body cfg lib before o = true := by
+  unfold Spec.c10Body
+  unfold recoverWrites at h
+  cases hsc : cfg.recoverScript with
+  | some sc =>
+    rw [hsc] at h
+    simp only [h]
+    cases lib
+    · simp
+    · simp [List.suffix_append]
+  | none =>
+    rw [hsc] at h
+    have hpos : 0 < "<stack>".toList.length := List.length_pos_iff.mpr stack_ne_nil
+    simp only [h]
+    cases lib
+    · simp only [Bool.false_eq_true, if_false, Bool.and_eq_true, decide_eq_true_eq, List.length_append]
+      exact ⟨List.isPrefixOf_iff_prefix.mpr (List.prefix_append _ _), by omega⟩
+    · simp
+
 /-! ### bridge to the specification's `chainLog` / `panicFromFilter` -/
 
 theorem attrsAfter_panic (as : List Act) (attrs : List (Str × Str)) :
@@ -1058,11 +1436,17 @@ theorem c10Holds_eq (E : ReEnv) (cfg : Cfg) (e : Entry) (sr : SReq) (o : Spec.Ob
     Spec.c10Holds E cfg e sr o =
       (if cfg.recover && covered cfg e then
         o.escaped.isNone && (o.acq == o.rel && o.dbl == 0 && o.complete) &&
-          (cfg.recoverScript.isNone ||
-            o.recov == (if (serve E (rawCfg cfg) e {} (rawReq sr)).escaped.isSome then 1 else 0)) &&
+          (o.recov + o.recovDefault ==
+            (if (serve E (rawCfg cfg) e {} (rawReq sr)).escaped.isSome then 1 else 0)) &&
+          (cfg.recoverScript.isNone || o.recovDefault == 0) &&
           (!((serve E (rawCfg cfg) e {} (rawReq sr)).escaped.isSome &&
               (serve E (rawCfg cfg) e {} (rawReq sr)).rc.status.isNone) ||
-            o.status == Spec.recoverStatus cfg)
+            o.status == Spec.recoverStatus cfg) &&
+          (!(serve E (rawCfg cfg) e {} (rawReq sr)).escaped.isSome ||
+            Spec.c10Body cfg
+              (Spec.libraryErrorText E cfg e sr &&
+                (serve E (rawCfg cfg) e {} (rawReq sr)).log.any (fun ev => ev.stage == Stage.errorWriter))
+              (serve E (rawCfg cfg) e {} (rawReq sr)).rc.body o)
       else o.escaped == (serve E (rawCfg cfg) e {} (rawReq sr)).escaped &&
         (o.acq == o.rel && o.dbl == 0 && o.complete)) := by
   cases e <;> rfl
@@ -1077,6 +1461,330 @@ theorem ledgerOK_serve (E : ReEnv) (cfg : Cfg) (e : Entry) (sr : SReq) :
   cases h : (serveCore E cfg e sr).1.rc.comp with
   | none => rfl
   | some c => simp [hc c h]
+
+/-! ### C13: no use after release, a second `Close` is an error
+
+`Rec.writeAfterClose` counts the `Write` calls that reached a closed compressing writer
+(compress.go:41), `Rec.closeErrors` the `Close` calls that found it closed (compress.go:64).  A
+compressing writer is released by the `Close` that closes it (compress.go:68-76), so "closed" is
+"released".  `Clean`: nothing of the kind has happened and the writer (if any) is still open;
+`After n`: the writer (if any) has been closed, no `Write` reached it afterwards, and `n` further
+`Close` calls were refused. -/
+
+def Clean (r : Rec) : Prop := Open r ∧ r.writeAfterClose = 0 ∧ r.closeErrors = 0
+
+def After (n : Nat) (r : Rec) : Prop := Closed r ∧ r.writeAfterClose = 0 ∧ r.closeErrors = n
+
+theorem lockStatus_writeAfterClose (r : Rec) (c : Nat) : (lockStatus r c).writeAfterClose = r.writeAfterClose := by
+  unfold lockStatus; split <;> rfl
+
+theorem lockStatus_closeErrors (r : Rec) (c : Nat) : (lockStatus r c).closeErrors = r.closeErrors := by
+  unfold lockStatus; split <;> rfl
+
+theorem clean_lockStatus {r : Rec} (c : Nat) (h : Clean r) : Clean (lockStatus r c) :=
+  ⟨open_lockStatus c h.1, by rw [lockStatus_writeAfterClose]; exact h.2.1, by rw [lockStatus_closeErrors]; exact h.2.2⟩
+
+theorem clean_baseWrite {r : Rec} (b : Str) (h : Clean r) : Clean (baseWrite r b) := by
+  refine ⟨open_baseWrite b h.1, ?_, ?_⟩
+  · unfold baseWrite
+    cases hc : r.comp with
+    | none => simpa [lockStatus_writeAfterClose] using h.2.1
+    | some c0 => simpa [h.1 c0 hc, lockStatus_writeAfterClose] using h.2.1
+  · unfold baseWrite
+    cases hc : r.comp with
+    | none => simpa [lockStatus_closeErrors] using h.2.2
+    | some c0 => simpa [h.1 c0 hc, lockStatus_closeErrors] using h.2.2
+
+/-- user scripts (writes, statuses, headers — through any wrappers) keep the writer clean: an open
+    compressing writer accepts every `Write` -/
+theorem clean_stable : ActStable (fun r _ => Clean r) :=
+  ⟨fun _ _ b _ h => clean_baseWrite b h, fun _ _ c h => clean_lockStatus c h, fun _ _ _ _ h => h⟩
+
+theorem baseWrite_isSome (r : Rec) (b : Str) : (baseWrite r b).comp.isSome = r.comp.isSome := by
+  unfold baseWrite
+  cases hc : r.comp with
+  | none => simp [lockStatus_comp, hc]
+  | some c0 => by_cases hcl : c0.closed = true <;> simp [hcl]
+
+/-- nothing a script does installs or removes a compressing writer -/
+theorem isSome_stable (b : Bool) : ActStable (fun r _ => r.comp.isSome = b) :=
+  ⟨fun r _ x _ h => by rw [baseWrite_isSome]; exact h,
+   fun r _ c h => by show (lockStatus r c).comp.isSome = b; rw [lockStatus_comp]; exact h,
+   fun _ _ _ _ h => h⟩
+
+/-- a property of the recorder that every writer operation preserves is preserved by a chain … -/
+theorem runChain_pres {P : Rec → Prop} (hP : ActStable (fun r _ => P r)) (fs : List (Stage × Filter)) (t : Target)
+    (cx : Ctx) (s : St) (h : P s.rc) : P (runChain fs t cx s).2.1.rc :=
+  runChain_rel hP fs t cx cx s s h
+
+theorem runStage_pres {P : Rec → Prop} (hP : ActStable (fun r _ => P r)) (st : Stage) (post : Bool) (as : List Act)
+    (cx : Ctx) (s : St) (h : P s.rc) : P (runStage st post as cx s).2.1.rc :=
+  runStage_rel hP st st post post as cx cx s s h
+
+/-- … and by the recover handler -/
+theorem runRecover_pres {P : Rec → Prop} (hP : ActStable (fun r _ => P r)) (cfg : Cfg) (s : St) (h : P s.rc) :
+    P (runRecover cfg s).rc := by
+  unfold runRecover
+  cases cfg.recoverScript with
+  | some sc => exact runStage_pres hP _ _ sc {} s h
+  | none => exact hP.write _ s.rc _ [] (hP.writeHeader _ s.rc 500 h)
+
+theorem closeComp_isSome (s : St) : (closeComp s).rc.comp.isSome = s.rc.comp.isSome := by
+  unfold closeComp
+  cases hc : s.rc.comp with
+  | none => simp [hc]
+  | some c0 => by_cases hcl : c0.closed = true <;> simp [hcl, hc]
+
+/-- the `Close` that finds the writer open closes (and thereby releases) it; nothing is counted -/
+theorem closeComp_clean {s : St} (h : Clean s.rc) : After 0 (closeComp s).rc := by
+  refine ⟨closeComp_closed s, ?_, ?_⟩
+  · unfold closeComp
+    cases hc : s.rc.comp with
+    | none => exact h.2.1
+    | some c0 => simpa [h.1 c0 hc, lockStatus_writeAfterClose] using h.2.1
+  · unfold closeComp
+    cases hc : s.rc.comp with
+    | none => exact h.2.2
+    | some c0 => simpa [h.1 c0 hc, lockStatus_closeErrors] using h.2.2
+
+/-- **a second `Close` changes nothing but the error count**: same compressor record (payload,
+    closed flag — hence the same ledger), same status, headers and body -/
+theorem closeComp_again {s : St} {c : Comp} (hc : s.rc.comp = some c) (hcl : c.closed = true) :
+    closeComp s = { s with rc := { s.rc with closeErrors := s.rc.closeErrors + 1 } } := by
+  unfold closeComp; rw [hc]; simp [hcl]
+
+/-- a `Close` after the closing one: refused and counted when there is a compressing writer at all -/
+theorem closeComp_after {s : St} {n : Nat} (h : After n s.rc) :
+    After (n + if s.rc.comp.isSome then 1 else 0) (closeComp s).rc := by
+  cases hc : s.rc.comp with
+  | none => rw [closeComp_of_none hc]; simpa [hc] using h
+  | some c0 =>
+    rw [closeComp_again hc (h.1 c0 hc)]
+    refine ⟨?_, h.2.1, by simp [h.2.2]⟩
+    intro c1 h1
+    exact h.1 c1 h1
+
+theorem clean_install {s : St} (c : Coding) (h : Clean s.rc) : Clean (install s c).rc := by
+  refine ⟨?_, h.2.1, h.2.2⟩
+  intro c0 h0
+  simp only [install, addHeader] at h0
+  cases h0
+  rfl
+
+theorem install_isSome (s : St) (c : Coding) : (install s c).rc.comp.isSome = true := rfl
+
+theorem clean_maybeInstall {s : St} (b : Bool) (ae : Str) (h : Clean s.rc) : Clean (maybeInstall b s ae).rc := by
+  unfold maybeInstall
+  split
+  · exact h
+  · split
+    · exact clean_install _ h
+    · exact h
+
+theorem maybeInstall_of_isSome {s : St} (b : Bool) (ae : Str) (h : s.rc.comp.isSome = true) :
+    maybeInstall b s ae = s := by
+  simp [maybeInstall, h]
+
+theorem maybeInstall_of_wants_none {s : St} (b : Bool) (ae : Str) (h : wants s.rc ae = none) :
+    maybeInstall b s ae = s := by
+  unfold maybeInstall
+  split
+  · rfl
+  · rw [h]
+
+theorem finishDispatch_clean (cfg : Cfg) {s : St} (p : Option Str) (h : Clean s.rc) :
+    After 0 (finishDispatch cfg s p).1.rc := by
+  unfold finishDispatch
+  cases p with
+  | none => exact closeComp_clean h
+  | some v =>
+    cases cfg.recover with
+    | true => exact closeComp_clean (runRecover_pres clean_stable cfg s h)
+    | false => exact closeComp_clean h
+
+theorem finishDispatch_isSome (cfg : Cfg) (s : St) (p : Option Str) :
+    (finishDispatch cfg s p).1.rc.comp.isSome = s.rc.comp.isSome := by
+  unfold finishDispatch
+  cases p with
+  | none => exact closeComp_isSome s
+  | some v =>
+    cases cfg.recover with
+    | true =>
+      show (closeComp (runRecover cfg s)).rc.comp.isSome = _
+      rw [closeComp_isSome]
+      exact runRecover_pres (isSome_stable _) cfg s rfl
+    | false => exact closeComp_isSome s
+
+/-- `dispatch` on a clean writer: its deferred `Close` is the first one — no `Write` after it, no
+    refused `Close` -/
+theorem dispatch_clean (E : ReEnv) (cfg : Cfg) (sr : SReq) {s : St} (h : Clean s.rc) :
+    After 0 (dispatch E cfg sr s).1.rc := by
+  rw [dispatch_eq]
+  cases planD E cfg sr with
+  | early v => exact finishDispatch_clean cfg _ h
+  | chain fs t cx enc =>
+    exact finishDispatch_clean cfg _ (runChain_pres clean_stable fs t cx _ (clean_maybeInstall enc _ h))
+
+/-- `dispatch` keeps a compressing writer it was handed (ServeHTTP's) … -/
+theorem dispatch_isSome (E : ReEnv) (cfg : Cfg) (sr : SReq) {s : St} (h : s.rc.comp.isSome = true) :
+    (dispatch E cfg sr s).1.rc.comp.isSome = true := by
+  rw [dispatch_eq]
+  cases planD E cfg sr with
+  | early v => show (finishDispatch cfg s (some v)).1.rc.comp.isSome = true; rw [finishDispatch_isSome]; exact h
+  | chain fs t cx enc =>
+    show (finishDispatch cfg _ _).1.rc.comp.isSome = true
+    rw [finishDispatch_isSome, maybeInstall_of_isSome enc _ h]
+    exact runChain_pres (isSome_stable true) fs t cx s h
+
+/-- … and installs none when the request does not ask for a coding -/
+theorem dispatch_isNone (E : ReEnv) (cfg : Cfg) (sr : SReq) {s : St} (h : s.rc.comp.isSome = false)
+    (hw : wants s.rc sr.acceptEncoding = none) : (dispatch E cfg sr s).1.rc.comp.isSome = false := by
+  rw [dispatch_eq]
+  cases planD E cfg sr with
+  | early v => show (finishDispatch cfg s (some v)).1.rc.comp.isSome = false; rw [finishDispatch_isSome]; exact h
+  | chain fs t cx enc =>
+    show (finishDispatch cfg _ _).1.rc.comp.isSome = false
+    rw [finishDispatch_isSome, maybeInstall_of_wants_none enc _ hw]
+    exact runChain_pres (isSome_stable false) fs t cx s h
+
+theorem plainBody_pres {P : Rec → Prop} (hP : ActStable (fun r _ => P r)) (cfg : Cfg) (s : St) (h : P s.rc) :
+    P (plainBody cfg s).1.rc :=
+  runStage_pres hP (.plain 0) false cfg.plainScript {} s h
+
+theorem plainFilteredBody_pres {P : Rec → Prop} (hP : ActStable (fun r _ => P r)) (cfg : Cfg) (s : St) (h : P s.rc) :
+    P (plainFilteredBody cfg s).1.rc := by
+  cases hne : cfg.cfilters.isEmpty with
+  | true =>
+    unfold plainFilteredBody
+    simp only [hne, if_true]
+    exact plainBody_pres hP cfg s h
+  | false =>
+    rw [plainFilteredBody_eq cfg s hne]
+    have hc := runChain_pres hP (label .cfilter cfg.cfilters) ⟨.plain 0, cfg.plainScript⟩ {} s h
+    cases chainPanic (label .cfilter cfg.cfilters) cfg.plainScript with
+    | none => exact hc
+    | some v =>
+      cases cfg.recover with
+      | true => exact runRecover_pres hP cfg _ hc
+      | false => exact hc
+
+/-- the closure `Handle` registers, around a body that only runs scripts (`hb`): handed a compressing
+    writer it leaves it open and clean (its owner closes it); otherwise its own deferred `Close` is
+    the first and only one -/
+theorem handleWrapper_clean (cfg : Cfg) (sr : SReq) {s0 : St} {body : St → St × Option Str × Nat}
+    (hb : ∀ {P : Rec → Prop}, ActStable (fun r _ => P r) → ∀ s, P s.rc → P (body s).1.rc) (h : Clean s0.rc) :
+    (s0.rc.comp.isSome = true → Clean (handleWrapper cfg sr s0 body).1.rc ∧
+        (handleWrapper cfg sr s0 body).1.rc.comp.isSome = true) ∧
+      (s0.rc.comp.isSome = false → After 0 (handleWrapper cfg sr s0 body).1.rc ∧
+        (wants s0.rc sr.acceptEncoding = none → (handleWrapper cfg sr s0 body).1.rc.comp.isSome = false)) := by
+  constructor
+  · intro hs
+    unfold handleWrapper
+    simp only [hs, if_true]
+    exact ⟨hb clean_stable s0 h, hb (isSome_stable true) s0 hs⟩
+  · intro hs
+    unfold handleWrapper
+    simp only [hs, Bool.false_eq_true, if_false]
+    refine ⟨closeComp_clean (hb clean_stable _ (clean_maybeInstall _ _ h)), ?_⟩
+    intro hw
+    show (closeComp _).rc.comp.isSome = false
+    rw [closeComp_isSome, maybeInstall_of_wants_none _ _ hw]
+    exact hb (isSome_stable false) s0 hs
+
+theorem clean_initial (sr : SReq) : Clean (initial sr).rc := ⟨fun _ h => (by cases h), rfl, rfl⟩
+
+/-- the one situation in which a compressing writer is closed twice: `ServeHTTP` installed it
+    (container switch on, the request asks for a coding), the mux handed the request to `dispatch`,
+    whose deferred `Close` (container.go:215) runs before `ServeHTTP`'s (container.go:336) -/
+def secondClose (cfg : Cfg) (e : Entry) (sr : SReq) : Bool :=
+  e == .serveDispatch && cfg.encoding && (wants (initial sr).rc sr.acceptEncoding).isSome
+
+/-- `ServeHTTP` around an inner function that (a) closes what it installs itself, (b) leaves a
+    writer it is handed open when `closes = false` (the `Handle` closure) or closes it when
+    `closes = true` (`dispatch`) -/
+theorem serveWrapper_after (cfg : Cfg) (sr : SReq) {inner : St → St × Option Str × Nat} (closes : Bool)
+    (h0 : After 0 (inner (initial sr)).1.rc)
+    (h0n : wants (initial sr).rc sr.acceptEncoding = none → (inner (initial sr)).1.rc.comp.isSome = false)
+    (h1 : ∀ c, (if closes then After 0 (inner (install (initial sr) c)).1.rc
+                else Clean (inner (install (initial sr) c)).1.rc) ∧
+              (inner (install (initial sr) c)).1.rc.comp.isSome = true) :
+    After (if closes && cfg.encoding && (wants (initial sr).rc sr.acceptEncoding).isSome then 1 else 0)
+      (serveWrapper cfg sr (initial sr) inner).1.rc := by
+  unfold serveWrapper
+  cases henc : cfg.encoding with
+  | false => simpa using h0
+  | true =>
+    have hin : (initial sr).rc.comp.isSome = false := rfl
+    simp only [hin, Bool.not_true, Bool.or_self, Bool.false_eq_true, if_false]
+    cases hw : wants (initial sr).rc sr.acceptEncoding with
+    | none =>
+      have := closeComp_after h0
+      simpa [h0n hw] using this
+    | some c =>
+      obtain ⟨ha, hs⟩ := h1 c
+      cases closes with
+      | true =>
+        simp only [if_true] at ha
+        have := closeComp_after ha
+        simpa [hs] using this
+      | false =>
+        simp only [Bool.false_eq_true, if_false] at ha
+        simpa using closeComp_clean ha
+
+/-- for every configuration, entry point and request: when the entry point is left the compressing
+    writer (if any) is closed, no `Write` reached it after its `Close`, and a `Close` was refused
+    exactly in the situation `secondClose` -/
+theorem serveCore_after (E : ReEnv) (cfg : Cfg) (e : Entry) (sr : SReq) :
+    After (if secondClose cfg e sr then 1 else 0) (serveCore E cfg e sr).1.rc := by
+  have hi := clean_initial sr
+  have hin : (initial sr).rc.comp.isSome = false := rfl
+  have hci : ∀ c, Clean (install (initial sr) c).rc := fun c => clean_install c hi
+  cases e with
+  | dispatch => simpa [secondClose, serveCore] using dispatch_clean E cfg sr hi
+  | serveDispatch =>
+    have := serveWrapper_after cfg sr (inner := dispatch E cfg sr) true (dispatch_clean E cfg sr hi)
+      (fun hw => dispatch_isNone E cfg sr hin hw)
+      (fun c => ⟨by simpa using dispatch_clean E cfg sr (hci c), dispatch_isSome E cfg sr (install_isSome _ c)⟩)
+    simpa [secondClose, serveCore] using this
+  | muxHandle =>
+    have := (handleWrapper_clean cfg sr (body := plainBody cfg) (fun hP s h => plainBody_pres hP cfg s h) hi).2 hin
+    simpa [secondClose, serveCore] using this.1
+  | muxHandleF =>
+    have := (handleWrapper_clean cfg sr (body := plainFilteredBody cfg) (fun hP s h => plainFilteredBody_pres hP cfg s h) hi).2 hin
+    simpa [secondClose, serveCore] using this.1
+  | serveHandle =>
+    have hb : ∀ {P : Rec → Prop}, ActStable (fun r _ => P r) → ∀ s, P s.rc → P (plainBody cfg s).1.rc :=
+      fun hP s h => plainBody_pres hP cfg s h
+    have h0 := (handleWrapper_clean cfg sr (body := plainBody cfg) hb hi).2 hin
+    have := serveWrapper_after cfg sr (inner := fun s => handleWrapper cfg sr s (plainBody cfg)) false h0.1 h0.2
+      (fun c => by simpa using (handleWrapper_clean cfg sr (body := plainBody cfg) hb (hci c)).1 (install_isSome _ c))
+    simpa [secondClose, serveCore] using this
+  | serveHandleF =>
+    have hb : ∀ {P : Rec → Prop}, ActStable (fun r _ => P r) → ∀ s, P s.rc → P (plainFilteredBody cfg s).1.rc :=
+      fun hP s h => plainFilteredBody_pres hP cfg s h
+    have h0 := (handleWrapper_clean cfg sr (body := plainFilteredBody cfg) hb hi).2 hin
+    have := serveWrapper_after cfg sr (inner := fun s => handleWrapper cfg sr s (plainFilteredBody cfg)) false h0.1 h0.2
+      (fun c => by simpa using (handleWrapper_clean cfg sr (body := plainFilteredBody cfg) hb (hci c)).1 (install_isSome _ c))
+    simpa [secondClose, serveCore] using this
+
+theorem serve_after (E : ReEnv) (cfg : Cfg) (e : Entry) (w : World) (sr : SReq) :
+    After (if secondClose cfg e sr then 1 else 0) (serve E cfg e w sr).rc := by
+  rw [serve_eq]; exact serveCore_after E cfg e sr
+
+/-- in the situation `secondClose` a compressing writer was indeed installed -/
+theorem secondClose_coded (E : ReEnv) (cfg : Cfg) (e : Entry) (w : World) (sr : SReq)
+    (h : secondClose cfg e sr = true) : (serve E cfg e w sr).rc.comp.isSome = true := by
+  simp only [secondClose, Bool.and_eq_true, beq_iff_eq] at h
+  obtain ⟨⟨rfl, henc⟩, hw⟩ := h
+  obtain ⟨c, hc⟩ := Option.isSome_iff_exists.mp hw
+  rw [serve_eq]
+  show (serveWrapper cfg sr (initial sr) (dispatch E cfg sr)).1.rc.comp.isSome = true
+  unfold serveWrapper
+  have hin : (initial sr).rc.comp.isSome = false := rfl
+  simp only [henc, hin, Bool.not_true, Bool.or_self, Bool.false_eq_true, if_false, hc]
+  show (closeComp _).rc.comp.isSome = true
+  rw [closeComp_isSome]
+  exact dispatch_isSome E cfg sr (install_isSome _ c)
 
 end Serve.Panic
 end Restful
